@@ -224,21 +224,36 @@ pub fn sched_point() {
 
 ////////////////////////////////////////////////////////////////////////////////
 
-/// Fallible item results, which short-circuit a parallel `collect`
-pub trait SimTry {
+/// Collections that a simulated parallel iterator can be collected into
+///
+/// As in `rayon`, collecting `Result` / `Option` items into a `Result<C, E>` /
+/// `Option<C>` stops at the first failing item; any other collection visits
+/// every item.
+pub trait SimCollect<R: Send>: FromParallelIterator<R> + FromIterator<R> {
     /// Returns `true` if this item stops the collection
-    fn is_fail(&self) -> bool;
-}
-
-impl<T, E> SimTry for Result<T, E> {
-    fn is_fail(&self) -> bool {
-        self.is_err()
+    fn stops(_r: &R) -> bool {
+        false
     }
 }
 
-impl<T> SimTry for Option<T> {
-    fn is_fail(&self) -> bool {
-        self.is_none()
+impl<R: Send> SimCollect<R> for Vec<R> {}
+impl SimCollect<()> for () {}
+
+impl<T: Send, E: Send, V> SimCollect<Result<T, E>> for Result<V, E>
+where
+    V: FromParallelIterator<T> + FromIterator<T>,
+{
+    fn stops(r: &Result<T, E>) -> bool {
+        r.is_err()
+    }
+}
+
+impl<T: Send, V> SimCollect<Option<T>> for Option<V>
+where
+    V: FromParallelIterator<T> + FromIterator<T>,
+{
+    fn stops(r: &Option<T>) -> bool {
+        r.is_none()
     }
 }
 
@@ -255,11 +270,54 @@ impl<T> SimVec<T> {
     }
 }
 
+impl<T> std::ops::Deref for SimVec<T> {
+    type Target = [T];
+    fn deref(&self) -> &[T] {
+        &self.0
+    }
+}
+
+impl<T> std::ops::DerefMut for SimVec<T> {
+    fn deref_mut(&mut self) -> &mut [T] {
+        &mut self.0
+    }
+}
+
+/// Sequential iterator over a [`SimVec`]; `par_bridge` is owned by the
+/// simulator as well
+pub struct SimIntoIter<T>(std::vec::IntoIter<T>);
+
+impl<T> Iterator for SimIntoIter<T> {
+    type Item = T;
+    fn next(&mut self) -> Option<T> {
+        self.0.next()
+    }
+    fn size_hint(&self) -> (usize, Option<usize>) {
+        self.0.size_hint()
+    }
+}
+
+impl<T> DoubleEndedIterator for SimIntoIter<T> {
+    fn next_back(&mut self) -> Option<T> {
+        self.0.next_back()
+    }
+}
+
+impl<T> ExactSizeIterator for SimIntoIter<T> {}
+
+impl<T: Send> SimIntoIter<T> {
+    /// Shadows `ParallelBridge::par_bridge`: items are handed to workers one
+    /// at a time, and results come back in completion order
+    pub fn par_bridge(self) -> SimIter<T> {
+        SimIter(self.0.collect(), true)
+    }
+}
+
 impl<T> IntoIterator for SimVec<T> {
     type Item = T;
-    type IntoIter = std::vec::IntoIter<T>;
+    type IntoIter = SimIntoIter<T>;
     fn into_iter(self) -> Self::IntoIter {
-        self.0.into_iter()
+        SimIntoIter(self.0.into_iter())
     }
 }
 
@@ -274,14 +332,19 @@ impl<'a, T> IntoIterator for &'a SimVec<T> {
 impl<T: Send> SimVec<T> {
     /// Shadows `IntoParallelIterator::into_par_iter`
     pub fn into_par_iter(self) -> SimIter<T> {
-        SimIter(self.0)
+        SimIter(self.0, false)
     }
 }
 
 impl<T: Sync> SimVec<T> {
     /// Shadows `IntoParallelRefIterator::par_iter`
     pub fn par_iter(&self) -> SimIter<&T> {
-        SimIter(self.0.iter().collect())
+        SimIter(self.0.iter().collect(), false)
+    }
+
+    /// Shadows `ParallelSlice::par_chunks`
+    pub fn par_chunks(&self, n: usize) -> SimIter<&[T]> {
+        SimIter(self.0.chunks(n).collect(), false)
     }
 
     /// Number of items
@@ -295,8 +358,10 @@ impl<T: Sync> SimVec<T> {
     }
 }
 
-/// See [`SimVec`]
-pub struct SimIter<T>(Vec<T>);
+/// See [`SimVec`] (the flag marks an unindexed `par_bridge` source)
+pub struct SimIter<T>(Vec<T>, bool);
+
+fn unit() {}
 
 impl<T: Send> SimIter<T> {
     /// Shadows `ParallelIterator::map_init`
@@ -312,15 +377,115 @@ impl<T: Send> SimIter<T> {
     {
         SimMapInit {
             items: self.0,
+            bridge: self.1,
             init,
             f,
         }
+    }
+
+    /// Shadows `ParallelIterator::map`
+    pub fn map<F, R>(
+        self,
+        f: F,
+    ) -> SimMapInit<T, fn(), impl Fn(&mut (), T) -> R + Sync + Send>
+    where
+        F: Fn(T) -> R + Sync + Send,
+        R: Send,
+    {
+        self.map_init(unit as fn(), move |_: &mut (), t| f(t))
+    }
+
+    /// Shadows `ParallelIterator::map_with`
+    pub fn map_with<F, S, R>(
+        self,
+        init: S,
+        f: F,
+    ) -> SimMapInit<T, impl Fn() -> S + Sync + Send, F>
+    where
+        F: Fn(&mut S, T) -> R + Sync + Send,
+        S: Send + Clone,
+        R: Send,
+    {
+        let m = Mutex::new(init);
+        self.map_init(move || m.lock().unwrap().clone(), f)
+    }
+
+    /// Shadows `IndexedParallelIterator::enumerate`
+    pub fn enumerate(self) -> SimIter<(usize, T)> {
+        SimIter(self.0.into_iter().enumerate().collect(), self.1)
+    }
+
+    /// Shadows `IndexedParallelIterator::with_min_len` (a scheduling hint)
+    pub fn with_min_len(self, _n: usize) -> Self {
+        self
+    }
+
+    /// Shadows `IndexedParallelIterator::with_max_len` (a scheduling hint)
+    pub fn with_max_len(self, _n: usize) -> Self {
+        self
+    }
+
+    /// Shadows `ParallelIterator::for_each`
+    pub fn for_each<F>(self, f: F)
+    where
+        F: Fn(T) + Sync + Send,
+    {
+        self.map(f).collect::<()>()
+    }
+
+    /// Shadows `ParallelIterator::for_each_init`
+    pub fn for_each_init<F, INIT, S>(self, init: INIT, f: F)
+    where
+        F: Fn(&mut S, T) + Sync + Send,
+        INIT: Fn() -> S + Sync + Send,
+    {
+        self.map_init(init, f).collect::<()>()
+    }
+
+    /// Shadows `ParallelIterator::for_each_with`
+    pub fn for_each_with<F, S>(self, init: S, f: F)
+    where
+        F: Fn(&mut S, T) + Sync + Send,
+        S: Send + Clone,
+    {
+        self.map_with(init, f).collect::<()>()
+    }
+
+    /// Shadows `ParallelIterator::try_for_each` (for `Result<(), E>` and
+    /// `Option<()>`)
+    pub fn try_for_each<F, R>(self, f: F) -> R
+    where
+        F: Fn(T) -> R + Sync + Send,
+        R: Send + SimCollect<R>,
+    {
+        self.map(f).collect::<R>()
+    }
+
+    /// Shadows `ParallelIterator::try_for_each_init`
+    pub fn try_for_each_init<F, INIT, S, R>(self, init: INIT, f: F) -> R
+    where
+        F: Fn(&mut S, T) -> R + Sync + Send,
+        INIT: Fn() -> S + Sync + Send,
+        R: Send + SimCollect<R>,
+    {
+        self.map_init(init, f).collect::<R>()
+    }
+
+    /// Shadows `ParallelIterator::try_for_each_with`
+    pub fn try_for_each_with<F, S, R>(self, init: S, f: F) -> R
+    where
+        F: Fn(&mut S, T) -> R + Sync + Send,
+        S: Send + Clone,
+        R: Send + SimCollect<R>,
+    {
+        self.map_with(init, f).collect::<R>()
     }
 }
 
 /// See [`SimVec`]
 pub struct SimMapInit<T, INIT, F> {
     items: Vec<T>,
+    bridge: bool,
     init: INIT,
     f: F,
 }
@@ -331,12 +496,35 @@ enum Seg<S> {
     Done,
 }
 
+/// What a simulated execution produced: per-item results (`None` for items
+/// that were skipped after a stop), the segments, and for unindexed sources
+/// the order in which items completed
+struct Executed<R> {
+    results: Vec<Option<R>>,
+    ranges: Vec<(usize, usize)>,
+    order: Option<Vec<usize>>,
+}
+
+impl<R> Executed<R> {
+    /// Results as the consumer sees them: index order for indexed sources,
+    /// completion order for `par_bridge`
+    fn into_seen(mut self) -> Vec<R> {
+        match self.order {
+            Some(order) => order
+                .into_iter()
+                .filter_map(|i| self.results[i].take())
+                .collect(),
+            None => self.results.into_iter().flatten().collect(),
+        }
+    }
+}
+
 impl<T, INIT, F, S, R> SimMapInit<T, INIT, F>
 where
     T: Send,
     F: Fn(&mut S, T) -> R + Sync + Send,
     INIT: Fn() -> S + Sync + Send,
-    R: Send + SimTry,
+    R: Send,
 {
     /// Shadows `ParallelIterator::collect`
     ///
@@ -349,27 +537,127 @@ where
     /// further items; the result is in index order.
     pub fn collect<C>(self) -> C
     where
-        C: FromParallelIterator<R> + FromIterator<R>,
+        C: SimCollect<R>,
     {
         if !installed() {
-            return self
-                .items
-                .into_par_iter()
-                .map_init(self.init, self.f)
-                .collect();
+            return if self.bridge {
+                use rayon::iter::ParallelBridge;
+                self.items
+                    .into_iter()
+                    .par_bridge()
+                    .map_init(self.init, self.f)
+                    .collect()
+            } else {
+                self.items
+                    .into_par_iter()
+                    .map_init(self.init, self.f)
+                    .collect()
+            };
         }
+        self.execute(&C::stops).into_seen().into_iter().collect()
+    }
+
+    /// Shadows `ParallelIterator::map`
+    pub fn map<G, R2>(
+        self,
+        g: G,
+    ) -> SimMapInit<T, INIT, impl Fn(&mut S, T) -> R2 + Sync + Send>
+    where
+        G: Fn(R) -> R2 + Sync + Send,
+        R2: Send,
+    {
+        let f = self.f;
+        SimMapInit {
+            items: self.items,
+            bridge: self.bridge,
+            init: self.init,
+            f: move |s: &mut S, t: T| g(f(s, t)),
+        }
+    }
+
+    /// Shadows `ParallelIterator::for_each`
+    pub fn for_each<G>(self, g: G)
+    where
+        G: Fn(R) + Sync + Send,
+    {
+        self.map(g).collect::<()>()
+    }
+
+    /// Shadows `ParallelIterator::try_for_each` (for `Result<(), E>` and
+    /// `Option<()>`)
+    pub fn try_for_each<G, R2>(self, g: G) -> R2
+    where
+        G: Fn(R) -> R2 + Sync + Send,
+        R2: Send + SimCollect<R2>,
+    {
+        self.map(g).collect::<R2>()
+    }
+
+    /// Shadows `ParallelIterator::count`
+    pub fn count(self) -> usize {
+        self.collect::<Vec<R>>().len()
+    }
+
+    /// Shadows `ParallelIterator::reduce`
+    ///
+    /// Under the simulator every segment folds its items in order, starting
+    /// from `identity()`, and the per-segment values are combined in segment
+    /// order (completion order for `par_bridge`): one of the groupings that
+    /// `rayon` may produce.
+    pub fn reduce<ID, OP>(self, identity: ID, op: OP) -> R
+    where
+        ID: Fn() -> R + Sync + Send,
+        OP: Fn(R, R) -> R + Sync + Send,
+    {
+        if !installed() {
+            return if self.bridge {
+                use rayon::iter::ParallelBridge;
+                self.items
+                    .into_iter()
+                    .par_bridge()
+                    .map_init(self.init, self.f)
+                    .reduce(identity, op)
+            } else {
+                self.items
+                    .into_par_iter()
+                    .map_init(self.init, self.f)
+                    .reduce(identity, op)
+            };
+        }
+        let mut ex = self.execute(&|_| false);
+        if ex.order.is_some() {
+            return ex.into_seen().into_iter().fold(identity(), &op);
+        }
+        let mut acc = identity();
+        for (lo, hi) in ex.ranges.clone() {
+            let mut part = identity();
+            for r in ex.results[lo..hi].iter_mut().filter_map(Option::take) {
+                part = op(part, r);
+            }
+            acc = op(acc, part);
+        }
+        acc
+    }
+
+    /// Simulated execution (see [`SimMapInit::collect`])
+    fn execute(self, fail: &(dyn Fn(&R) -> bool + Sync)) -> Executed<R> {
         let n = self.items.len();
+        let width = thread_count_override().unwrap_or(1).max(1);
+        if self.bridge {
+            return self.execute_bridge(fail, width);
+        }
         let mut ranges = vec![];
         split_ranges(0, n, &mut ranges);
-        let width = thread_count_override().unwrap_or(1).max(1);
         event("exec_begin", n as u64, ranges.len() as u64);
         if with_sim(|s| s.preemptive()).unwrap_or(false) {
-            return collect_preemptive(
-                self.items, &self.init, &self.f, &ranges, width,
-            )
-            .into_iter()
-            .flatten()
-            .collect();
+            let results = collect_preemptive(
+                self.items, &self.init, &self.f, fail, &ranges, width,
+            );
+            return Executed {
+                results,
+                ranges,
+                order: None,
+            };
         }
 
         let mut items: Vec<Option<T>> =
@@ -414,7 +702,7 @@ where
             let idx = *next;
             event("item_start", idx as u64, si as u64);
             let r = (self.f)(state, items[idx].take().unwrap());
-            let failed = r.is_fail();
+            let failed = fail(&r);
             results[idx] = Some(r);
             ran += 1;
             event("item_end", idx as u64, failed as u64);
@@ -427,7 +715,54 @@ where
             }
         }
         event("exec_end", ran, stop as u64);
-        results.into_iter().flatten().collect()
+        Executed {
+            results,
+            ranges,
+            order: None,
+        }
+    }
+
+    /// Simulated `par_bridge`: up to `width` workers, each with its own
+    /// `init()` state, take the next item of the sequential source whenever
+    /// the simulator lets them; results are seen in completion order
+    fn execute_bridge(
+        self,
+        fail: &(dyn Fn(&R) -> bool + Sync),
+        width: usize,
+    ) -> Executed<R> {
+        let n = self.items.len();
+        event("exec_begin", n as u64, u64::MAX);
+        let mut results: Vec<Option<R>> = (0..n).map(|_| None).collect();
+        let mut order = vec![];
+        let mut workers: Vec<S> = vec![];
+        let mut stop = false;
+        for (idx, item) in self.items.into_iter().enumerate() {
+            if stop && choose("sees_stop", 2) == 0 {
+                event("stop_seen", idx as u64, 0);
+                break;
+            }
+            let k = workers.len() + usize::from(workers.len() < width);
+            let w = choose("bridge_worker", k as u32) as usize;
+            if w == workers.len() {
+                event("seg_init", w as u64, idx as u64);
+                workers.push((self.init)());
+            }
+            event("item_start", idx as u64, w as u64);
+            let r = (self.f)(&mut workers[w], item);
+            let failed = fail(&r);
+            event("item_end", idx as u64, failed as u64);
+            // the item may finish before or after the previous ones
+            let pos = order.len() - choose("bridge_late", 1 + order.len().min(3) as u32) as usize;
+            order.insert(pos, idx);
+            results[idx] = Some(r);
+            stop |= failed;
+        }
+        event("exec_end", order.len() as u64, stop as u64);
+        Executed {
+            results,
+            ranges: vec![(0, n)],
+            order: Some(order),
+        }
     }
 }
 
@@ -447,6 +782,7 @@ fn collect_preemptive<T, INIT, F, S, R>(
     items: Vec<T>,
     init: &INIT,
     f: &F,
+    fail: &(dyn Fn(&R) -> bool + Sync),
     ranges: &[(usize, usize)],
     width: usize,
 ) -> Vec<Option<R>>
@@ -454,7 +790,7 @@ where
     T: Send,
     F: Fn(&mut S, T) -> R + Sync + Send,
     INIT: Fn() -> S + Sync + Send,
-    R: Send + SimTry,
+    R: Send,
 {
     let n = items.len();
     let ctl = Arc::new(Ctl {
@@ -531,7 +867,7 @@ where
                                     break;
                                 }
                                 let r = f(&mut state, item);
-                                let failed = r.is_fail();
+                                let failed = fail(&r);
                                 results.lock().unwrap()[idx] = Some(r);
                                 rpc(Req::ItemEnd(idx, failed));
                                 if failed {
